@@ -766,6 +766,17 @@ static sb_error_t sb_i_trajectory_player_build_current_segment(
     uint8_t header;
     size_t num_coords;
 
+    /* Make sure that the duration and all the coordinates of the segment are
+     * really there; a segment cut short by the end of the buffer is an error,
+     * and the player stays on the segment it was on */
+    if (offset < buffer_length && trajectory->scale != 0) {
+        header = buf[offset];
+        num_coords = 2 + 2 * (sb_i_get_num_coords(header >> 0) - 1 + sb_i_get_num_coords(header >> 2) - 1 + sb_i_get_num_coords(header >> 4) - 1 + sb_i_get_num_coords(header >> 6) - 1);
+        if (buffer_length - offset - 1 < num_coords) {
+            return SB_EPARSE;
+        }
+    }
+
     /* Initialize the current segment */
     memset(&player->current_segment, 0, sizeof(player->current_segment));
     player->current_segment.start = offset;
@@ -793,13 +804,6 @@ static sb_error_t sb_i_trajectory_player_build_current_segment(
 
     /* Parse header */
     header = buf[offset++];
-
-    /* Make sure that the duration and all the coordinates of the segment are
-     * really there; a segment cut short by the end of the buffer is an error */
-    num_coords = 2 + 2 * (sb_i_get_num_coords(header >> 0) - 1 + sb_i_get_num_coords(header >> 2) - 1 + sb_i_get_num_coords(header >> 4) - 1 + sb_i_get_num_coords(header >> 6) - 1);
-    if (buffer_length - offset < num_coords) {
-        return SB_EPARSE;
-    }
 
     /* Parse duration and calculate end time */
     data->duration_msec = sb_parse_uint16(SB_BUFFER(trajectory->buffer), &offset);
